@@ -84,6 +84,15 @@ func Run(id, tier, only string) (code int) {
 	case <-time.After(budget):
 		rb := report.New(id, tier, e.level)
 		rb.Explanation = "analysis budget exceeded"
+		// what the rules that did finish found is kept: they may name the construct
+		for _, o := range r.Undischarged() {
+			key := strings.TrimPrefix(o.Key, o.Rule+"/")
+			if o.Status == report.Violated {
+				rb.Bad(o.Rule, key, o.Pos, o.Detail)
+			} else {
+				rb.Unknown(o.Rule, key, o.Pos, o.Detail)
+			}
+		}
 		rb.Unknown("A0", "analysis-budget", "", fmt.Sprintf("the rules of %s did not finish within %s on this tree (they take under a minute on the reference tree): some construct makes an engine explore without end; nothing is claimed", id, budget))
 		return rb.Finish()
 	}
